@@ -11,7 +11,7 @@ CONSTANTS
   Prog <- MC_Prog
   KeyRank <- MC_KeyRank
   Root <- MC_Root
-  CandU <- MC_CandU_life
+  CandU <- MC_CandU_edge
   AbortSets <- MC_AbortSets_one
   MaxTicks = 3
   MaxCands = 2
